@@ -25,6 +25,8 @@ func main() {
 		checkCmd(os.Args[2:])
 	case "replay":
 		replayCmd(os.Args[2:])
+	case "fingerprint":
+		fingerprintCmd(os.Args[2:])
 	default:
 		fmt.Fprintln(os.Stderr, "unknown command")
 		os.Exit(2)
